@@ -879,6 +879,12 @@ fn parse_struct_literal_fields(
             break;
         }
 
+        // After a trailing comma at the end of the file there are no
+        // more fields; the caller reports the missing `}`.
+        if !fields.is_empty() && tokens.is_empty() {
+            break;
+        }
+
         let start_idx = tokens.idx;
 
         let sym = parse_symbol(tokens, id_gen, diagnostics, Some("field name"));
@@ -2811,6 +2817,12 @@ fn parse_let_destination(
         loop {
             if peeked_symbol_is(tokens, ")") {
                 tokens.pop();
+                break;
+            }
+
+            // We've already reported the missing `)` or `,`. At the
+            // end of the file there is nothing more to consume.
+            if !symbols.is_empty() && tokens.is_empty() {
                 break;
             }
 
